@@ -15,6 +15,7 @@
 //          ccsync:<timeoutMs> (connectSyncCancellable with the case's token)   cancel (that token)
 //          observe:<sid>:<tag>  unobserve:<tag>  setdata:<sid>:<tag>  close:<sid>  send:<sid>  listen
 //          waitflag:<f>  setflag:<f>  sleep:<ms>  waitlast:<thread> (until that thread is in flight inside a gate-counted call)
+//          waitparked:<thread> (until that thread is parked in a blocking call or done)
 //          stop  destroy (main only; waits until every other application thread is parked in a blocking call or done)
 //          join (main only: join the other application threads)
 //   The engine processes Close commands (from Transport::close / connectSync's timeout path) between its scripted ops and
@@ -492,6 +493,13 @@ static void appOps(World *w, const ThreadProg &tp, std::vector<std::thread> *oth
     if (op == "waitflag")
     {
       while (!w->flag(f[1]).load()) sched_yield();
+      continue;
+    }
+    if (op == "waitparked")
+    {
+      // until thread f[1] is parked inside a blocking call (or has finished): e.g. before the event that will destroy the
+      // transport is released, so that the thread does not BEGIN its call on a dying object
+      while (vf::threadPhase(f[1]) == 0) sched_yield();
       continue;
     }
     if (op == "waitlast")
